@@ -302,6 +302,9 @@ impl Worksheet {
         value: f64,
         style: i32,
     ) -> Result<(), String> {
+        if value.is_nan() || value.is_infinite() {
+            return Err("A cell cannot hold a non-finite number".to_string());
+        }
         let cell = Cell::new_number(value, style);
         self.update_cell(row, column, cell)
     }
